@@ -19,6 +19,7 @@ import vlib
 
 PROP = "C02"
 NPAIRS = 62500
+NOKIND = 17328
 
 
 def transitions(row):
@@ -54,15 +55,21 @@ def run(tier):
         run.coverage.update({"states": states, "transitions": trans, "mc_runs": mc})
 
         # ---------------- (a) model universe pairs on the real code
+        # quick: ALL pairs in which no path changes kind (17 328) + a seeded sample of the kind-change pairs;
+        # thorough: the whole universe
         if tier == "quick":
-            args, n = ["c02", "-mode", "model", "-reps", "4"], 1600
+            plans = [(["c02", "-mode", "model", "-subset", "nokind", "-sample=false", "-reps", "4"], NOKIND, "nokind"),
+                     (["c02", "-mode", "model", "-subset", "kind", "-reps", "3"], 600, "kind")]
         else:
-            args, n = ["c02", "-mode", "model", "-sample=false", "-reps", "4"], NPAIRS
+            plans = [(["c02", "-mode", "model", "-sample=false", "-reps", "4"], NPAIRS, "model")]
         total = outcomes = explained = kc = multi = 0
         unexplained_nokind = 0
         classes = collections.Counter()
-        for tp, cnt, r in pairs.run_shards(binary, d, args, n, "Trace_Overlay", "Trace_Overlay.cfg", "model", tlc_workers=2,
-                                           timeout=900 if tier == "quick" else 3400):
+        shard_results = []
+        for args, n, prefix in plans:
+            shard_results += pairs.run_shards(binary, d, args, n, "Trace_Overlay", "Trace_Overlay.cfg", prefix, tlc_workers=2,
+                                              timeout=900 if tier == "quick" else 3400)
+        for tp, cnt, r in shard_results:
             if r is None:
                 continue
             total += cnt
@@ -99,6 +106,7 @@ def run(tier):
                 run.sample({"pair": rows[0]["desc"], "old": compact(rows[0]["old"]), "new": compact(rows[0]["new"]), "outcomes": [compact(o["final"]) for o in rows[0]["outcomes"]]})
         run.coverage["model_pairs_on_real_code"] = total
         run.coverage["exhaustive"] = (tier == "thorough")
+        run.coverage["exhaustive_over_pairs_without_kind_change"] = True
         run.coverage["pairs_with_kind_change"] = kc
         run.coverage["pairs_with_more_than_one_real_outcome"] = multi
         run.coverage["real_outcomes"] = outcomes
